@@ -20,6 +20,8 @@ class HandlerContext:
     """Context passed to handlers."""
 
     tokens: list[str]
+    # Directory the command would run in (None: the handler falls back to the process cwd)
+    cwd: Path | None = None
 
 
 @dataclass(frozen=True)
